@@ -26,8 +26,12 @@ def configs(tier):
         add(spec('wavelet', 'wavelet', 1, 2, 1, order=1), 10)
         # the same exactness on grids reached through update / copy / round trip (rules that use alpha and beta included)
         add(spec('global', 'gauss-jacobi', 2, 1, 3, alpha=2.0, beta=0.5), hist=1); add(spec('global', 'gauss-hermite', 2, 1, 3, alpha=2.0), hist=1); add(spec('global', 'clenshaw-curtis', 2, 1, 2), hist=2)
+        add(spec('sequence', 'leja', 2, 3, 3), hist=4); add(spec('localp', 'localp', 2, 2, 2, order=1), 16, hist=4); add(spec('localp', 'semi-localp', 2, 3, 2, order=2), 12, hist=4)   # several outputs, incremental surplus updates
         add(spec('global', 'gauss-gegenbauer', 2, 1, 3, alpha=1.5), hist=3); add(spec('sequence', 'rleja', 2, 1, 4), hist=1); add(spec('fourier', 'fourier', 2, 1, 1), hist=1)
     else:
+        for rule in SEQUENCE_RULES: add(spec('sequence', rule, 2, 3, 3), hist=4); add(spec('sequence', rule, 3, 2, 2, transform=1), hist=4)
+        for rule in ('localp', 'semi-localp', 'localp-boundary'):   # (localp-zero does not contain the affine functions; Global / Fourier point-by-point delivery is the open C09 finding)
+            for order in (1, 2): add(spec('localp', rule, 2, 2, 2, order=order), 60, hist=4); add(spec('localp', rule, 1, 3, 3, order=order), 40, hist=4)
         for h in (1, 2, 3):
             for rule, ab in (('gauss-jacobi', (2.0, 0.5)), ('gauss-jacobi-odd', (0.0, 3.0)), ('gauss-gegenbauer', (1.5, None)), ('gauss-hermite', (2.0, None)), ('gauss-laguerre', (1.0, None)), ('gauss-legendre', (None, None)),
                              ('clenshaw-curtis', (None, None)), ('leja', (None, None)), ('chebyshev', (None, None)), ('gauss-patterson', (None, None))):
